@@ -23,7 +23,7 @@ import (
 const c16LongLine = 65000
 
 type c16Case struct {
-	Kind   string     `json:"kind"` // roundtrip | rendering | behaviour | near-miss | invalid | long-line
+	Kind   string     `json:"kind"` // roundtrip | rendering | behaviour | near-miss | invalid | long-line | trailing-continuation
 	Desc   *c16Desc   `json:"desc,omitempty"`
 	Style  *c16Style  `json:"style,omitempty"`
 	Config *c16Config `json:"config,omitempty"` // the rendering as compiled (informational when Desc+Style are present)
@@ -477,6 +477,50 @@ func (j *c16Judge) longLine(c *c16Case) {
 	}
 }
 
+// trailingContinuation: a directive whose last physical line ends in a continuation backslash when
+// the text ends must be loaded, or loading must fail; it must not vanish.
+func (j *c16Judge) trailingContinuation(c *c16Case) {
+	w := j.w
+	w.Trace(c)
+	rules, err, pi := j.compileText(c.Text)
+	w.Eval(1)
+	w.Count("trailing_continuation_probes", 1)
+	switch {
+	case pi != nil:
+		w.Violation("panic-on-config:"+pi.Frame, "NewWAF", c, "an error or a WAF", pi, pi.Value)
+	case err != nil:
+		w.Count("trailing_continuation_rejected", 1)
+	default:
+		have := map[string]bool{}
+		for _, r := range rules {
+			have[fmt.Sprintf("id:%d", r.ID)] = true
+			have["marker:"+r.SecMark] = true
+		}
+		for _, e := range c.Expect {
+			if !have[e] {
+				w.Violation("trailing-continuation-drops-directive", "dump-after-continuation", c, c.Expect, c16DumpString(rules),
+					"NewWAF returned no error, but the directive whose last line ends in a backslash at the end of the text is absent: "+e)
+				return
+			}
+		}
+		w.Count("trailing_continuation_loaded", 1)
+	}
+}
+
+func c16TrailingCases(r *rand.Rand) []*c16Case {
+	var out []*c16Case
+	for _, last := range []string{"SecAction \"id:2,phase:1\"", "SecMarker END_X", "SecRule ARGS \"@rx x\" \"id:2,phase:2\""} {
+		for _, tail := range []string{" \\", " \\\n", " \\\n\n", " \\\n# comment\n", " \\\r\n"} {
+			exp := []string{"id:1", "id:2"}
+			if strings.HasPrefix(last, "SecMarker") {
+				exp = []string{"id:1", "marker:END_X"}
+			}
+			out = append(out, &c16Case{Kind: "trailing-continuation", Shape: fmt.Sprintf("%q", tail), Text: "SecAction \"id:1,phase:1\"\n" + last + tail, Expect: exp})
+		}
+	}
+	return out
+}
+
 func c16LongLineCase(r *rand.Rand, shape string, n int) *c16Case {
 	var long string
 	exp := []string{"id:1", "id:3", "marker:AFTER_LONG"}
@@ -592,6 +636,9 @@ func c16Run(w *fw.W, b fw.Batch) {
 				w.Sample(map[string]any{"kind": "long-line description", "long_kind": kind, "bytes": size, "rendering": c16Trunc(c16Render(d, styles[0]))})
 			}
 		}
+		for _, c := range c16TrailingCases(r) {
+			j.trailingContinuation(c)
+		}
 		for _, shape := range []string{"comment", "secaction-msg", "secrule-argument", "secrule-targets"} {
 			for _, n := range []int{60000, 65535, 65536, 65537, 70000, 200000} {
 				j.longLine(c16LongLineCase(r, shape, n+r.IntN(3)))
@@ -663,6 +710,8 @@ func c16Replay(w *fw.W, raw json.RawMessage) {
 		j.invalid(nil, c16InvalidCase{Shape: c.Shape, Text: c.Text})
 	case "long-line":
 		j.longLine(&c)
+	case "trailing-continuation":
+		j.trailingContinuation(&c)
 	}
 }
 
@@ -675,7 +724,7 @@ func init() {
 			"an action value is the text between the quotes with its \\' sequences kept; string and regex keys are compared modulo ASCII/Unicode lower-casing (case folding of keys is C01's subject)",
 			"operators that name files or data sets (pmFromFile, ipMatchFromFile, validateSchema, inspectFile, *FromDataset) are not generated; they are listed under operators_not_generated",
 			"near misses outside the fixed certainly-invalid list that compile to something else are counted (near_miss_accepted_different), not judged",
-			"a physical line of 64 KiB or more may be rejected with an error; it must not be accepted with later directives missing",
+			"a physical line of 64 KiB or more may be rejected with an error; it must not be accepted with later directives missing; likewise a directive whose last line ends in a backslash at the end of the text is loaded or refused, never dropped",
 		},
 		Required: []string{"descriptions_compiled", "renderings_compared", "include_splits", "long_lines_compared", "near_miss_error", "invalid_rejected", "probes_fired", "probes_not_fired", "chains"},
 		Plan: func(tier fw.Tier, seed int64) []fw.Batch {
